@@ -40,7 +40,8 @@ const OP_ADD_ARG: usize = 7; // +k
 const OP_REMOVE_FIELD: usize = 12; // +k
 const OP_ADD_INPUT_FIELD: usize = 17; // +k
 const OP_ADD_DIR_ARG: usize = 22; // +k
-const NOPS: usize = 27;
+const OP_REMOVE_Q: usize = 27;
+const NOPS: usize = 28;
 
 fn op_name(op: usize) -> String {
     match op {
@@ -50,6 +51,7 @@ fn op_name(op: usize) -> String {
         _ if op < OP_REMOVE_FIELD => format!("add argument Query.q(a{0}:{0})", SCALARS[op - OP_ADD_ARG]),
         _ if op < OP_ADD_INPUT_FIELD => format!("remove field Query.f{}", SCALARS[op - OP_REMOVE_FIELD]),
         _ if op < OP_ADD_DIR_ARG => format!("add input field In.i{0}:{0}", SCALARS[op - OP_ADD_INPUT_FIELD]),
+        OP_REMOVE_Q => "remove field Query.q".into(),
         _ => format!("add directive argument @d(d{0}:{0})", SCALARS[op - OP_ADD_DIR_ARG]),
     }
 }
@@ -115,6 +117,9 @@ fn mutate(s: &mut Schema, op: usize) -> bool {
         let k = op - OP_REMOVE_FIELD;
         let fname = format!("f{}", SCALARS[k]);
         let Some(q) = query_mut(s) else { return false };
+        if q.fields.len() < 2 {
+            return false; // never empty the type (an object type without fields is invalid for another reason)
+        }
         q.fields.shift_remove(fname.as_str()).is_some()
     } else if (OP_ADD_INPUT_FIELD..OP_ADD_DIR_ARG).contains(&op) {
         let k = op - OP_ADD_INPUT_FIELD;
@@ -125,7 +130,15 @@ fn mutate(s: &mut Schema, op: usize) -> bool {
         }
         o.make_mut().fields.insert(name(&fname), Component::new(input_value(&fname, k)));
         true
-    } else if (OP_ADD_DIR_ARG..NOPS).contains(&op) {
+    } else if op == OP_REMOVE_Q {
+        // drop the base schema's own field (possibly the last reference to a built-in scalar);
+        // only when another field remains, so that Query does not become empty
+        let Some(q) = query_mut(s) else { return false };
+        if q.fields.len() < 2 {
+            return false;
+        }
+        q.fields.shift_remove("q").is_some()
+    } else if (OP_ADD_DIR_ARG..OP_REMOVE_Q).contains(&op) {
         let k = op - OP_ADD_DIR_ARG;
         let aname = format!("d{}", SCALARS[k]);
         let Some(d) = s.directive_definitions.get_mut("d") else { return false };
@@ -315,6 +328,7 @@ fn step(state: &St, op: usize, st: &mut Stats, oracle: bool) -> Result<Option<St
                 _ if op < OP_REMOVE_FIELD => "edit: add argument",
                 _ if op < OP_ADD_INPUT_FIELD => "edit: remove field",
                 _ if op < OP_ADD_DIR_ARG => "edit: add input field",
+                OP_REMOVE_Q => "edit: remove the base field",
                 _ => "edit: add directive argument",
             });
             Ok(Some(St::Plain(s2)))
